@@ -226,7 +226,7 @@ func runC09(c *core.Ctx) {
 							}
 						case *ssa.FieldAddr:
 							fnm := core.FieldName(x)
-							if strings.HasSuffix(fnm, ".state") || strings.HasSuffix(fnm, ".tag") || strings.HasSuffix(fnm, ".ca") {
+							if isStateField(x) || strings.HasSuffix(fnm, ".tag") || strings.HasSuffix(fnm, ".ca") {
 								ok = true
 							}
 						}
